@@ -43,6 +43,36 @@ func canonShapeOnce(s string) string {
 			i = j
 			continue
 		}
+		// a match of an emission template: match(S){A: …; B: …} — arms in alphabetical order, default last
+		if isWordStart(s, i) && strings.HasPrefix(s[i:], "match(") {
+			if cl := matchingClose(s, i+5); cl > 0 && cl+1 < len(s) && s[cl+1] == '{' {
+				if c1 := matchingClose(s, cl+1); c1 > 0 {
+					scr := canonShapeOnce(s[i+6 : cl])
+					arms := splitTop(canonShapeOnce(s[cl+2:c1]), ';')
+					okArms := true
+					for k := range arms {
+						arms[k] = strings.TrimSpace(arms[k])
+						j := strings.Index(arms[k], ":")
+						if j <= 0 {
+							okArms = false
+						}
+					}
+					if okArms {
+						lab := func(a string) string { return a[:strings.Index(a, ":")] }
+						sort.SliceStable(arms, func(x, y int) bool {
+							lx, ly := lab(arms[x]), lab(arms[y])
+							if (lx == "_") != (ly == "_") {
+								return ly == "_"
+							}
+							return lx < ly
+						})
+					}
+					b.WriteString("match(" + scr + "){" + strings.Join(arms, "; ") + "}")
+					i = c1 + 1
+					continue
+				}
+			}
+		}
 		// a conditional piece of an emission template: ?(not(C)){A}{B} is ?(C){B}{A}
 		if c == '?' && i+1 < len(s) && s[i+1] == '(' {
 			if cl := matchingClose(s, i+1); cl > 0 && cl+1 < len(s) && s[cl+1] == '{' {
